@@ -190,9 +190,18 @@ KIND_NAME = {"c": "copy", "d": "deepcopy", "p": "pickle", "m": "copy-method"}
 _OWNER = None
 
 
-def owner_class():
-    """A HasTraits class with one Set(<inner trait>) trait per inner trait of the `to` stream."""
-    global _OWNER
+_OWNER_FALSY = None
+
+
+def owner_class(falsy=False):
+    """A HasTraits class with one Set(<inner trait>) trait per inner trait of the `to` stream; `falsy`:
+    its instances are alive but false in a truth test, which must not make a set treat them as absent."""
+    global _OWNER, _OWNER_FALSY
+    if falsy:
+        if _OWNER_FALSY is None:
+            _OWNER_FALSY = type("OwnerFalsy", (owner_class(),), {"__len__": lambda self: 0,
+                                                                 "__bool__": lambda self: False})
+        return _OWNER_FALSY
     if _OWNER is None:
         from traits.api import HasTraits, Set, Int, CInt, CStr, Range, Any
 
@@ -259,23 +268,28 @@ def _run(case, resolving=False):
         tags.add("ps")
         return finish()
     obj = None            # bookkeeping for the value of a Set trait (kind "to")
-    v = S.Validator(vs) if kind != "to" else None
+    v = S.Validator(vs) if kind not in ("to", "tof") else None
     calls = []
+
+    item_events = []      # <name>_items events of a Set trait
 
     def attach(ts):
         del calls[:]
-        ts.notifiers[:] = [
-            lambda t, removed, added: calls.append((0, set(removed), set(added), (removed, added))),
-            lambda t, removed, added: (lambda ev: calls.append((1, set(ev.removed), set(ev.added),
-                                                               (ev.removed, ev.added))))(
-                set_event_factory(t, removed, added)),
+        # falsy callable objects: a notifier is called, never truth-tested; the value of a Set trait keeps
+        # its own notifier (the one that fires <name>_items) in front
+        ts.notifiers[:] = ([ts.notifier] if hasattr(ts, "name_items") else []) + [
+            S.Recorder(lambda t, removed, added: calls.append((0, set(removed), set(added), (removed, added)))),
+            S.Recorder(lambda t, removed, added: (lambda ev: calls.append(
+                (1, set(ev.removed), set(ev.added), (ev.removed, ev.added))))(set_event_factory(t, removed, added))),
         ]
     try:
-        if kind == "to":
+        if kind in ("to", "tof"):
             attr = "t_" + vs
-            own = owner_class()()
+            own = owner_class(falsy=(kind == "tof"))()
+            tags.add("owner:" + ("falsy" if kind == "tof" else "truthy"))
             setattr(own, attr, set(init))
             ts = getattr(own, attr)
+            own.on_trait_change(lambda ev: item_events.append((set(ev.removed), set(ev.added))), attr + "_items")
             v = TraitValidator(attr)
             # the rule derived from the pristine code (TraitSetObject._validator, __deepcopy__, __setstate__):
             # own_trait = this object has a trait; val_trait = the object whose bound _validator is this
@@ -283,7 +297,11 @@ def _run(case, resolving=False):
             obj = {"owner": own, "own_trait": True, "val_trait": True, "state": "live", "tv": v}
             del own
         else:
-            ts = TraitSet(init, item_validator=v)
+            given = []
+            ts = TraitSet(init, item_validator=v, notifiers=given)
+            if ts.notifiers is not given:
+                hits.append(_hit("notifier-list-replaced", "TraitSet does not use the (empty) notifiers list it "
+                                 "was given"))
     except Exception as e:
         outs.append("err " + S.exc_name(e))
         tags.add("init-err")
@@ -297,6 +315,7 @@ def _run(case, resolving=False):
         tags.add(k)
         snap = set(ts)
         del calls[:]
+        del item_events[:]
         v.reset()
         if obj is not None:
             v = obj["tv"] if obj["val_trait"] else IDENTITY
@@ -340,7 +359,7 @@ def _run(case, resolving=False):
             if set(c) != snap:
                 hits.append(_hit("copy-differs:" + name, "%s is not equal to the original" % name,
                                  original=_srt(snap), copied=_srt(set(c))))
-            if set(ts) != snap or len(ts.notifiers) != 2:
+            if set(ts) != snap or len(ts.notifiers) != 3:
                 hits.append(_hit("copy-disturbs-original:" + name, "the original changed while being copied"))
             if list(getattr(c, "notifiers", [None])) != [c.notifier]:
                 hits.append(_hit("copy-keeps-notifiers:" + name, "the copy's notifiers are not just its own inert "
@@ -542,6 +561,18 @@ def _run(case, resolving=False):
             if (set(live[0]), set(live[1])) != (removed, added):
                 hits.append(_hit("notifier-args-mutated-after-call:" + k,
                                  "the sets handed to notifier #%d were modified after it returned" % pos))
+        if obj is not None:
+            # the Set trait's own notifier: one <name>_items event per notification while the set is the live
+            # value of an alive owner (whatever the owner's truth value), none for copies and orphans
+            expect = 1 if (calls and obj["state"] == "live" and obj["owner"] is not None) else 0
+            if len(item_events) != expect:
+                hits.append(_hit("items-event-count:" + k, "%d '<name>_items' events, expected %d (state %s, owner %s)"
+                                 % (len(item_events), expect, obj["state"],
+                                    "none" if obj["owner"] is None else ("falsy" if kind == "tof" else "truthy"))))
+            for (r_, a_) in item_events:
+                why = check_delta(snap, after, r_, a_)
+                if why is not None:
+                    hits.append(_hit("items-event-law:" + k, "TraitSetEvent: " + why))
         ev = "-"
         if calls:
             ev = "E%s%s" % (_srt(calls[0][1]), _srt(calls[0][2]))
